@@ -145,11 +145,17 @@ def audit_sources():
     return hits
 
 
+TRANSLATOR_ERROR = None
+
+
 def prove(theorems, modules):
     """Build the proof modules and audit the axioms of the given theorems.
     Returns dict(ok, obligations, discharged, detail, axioms)."""
     t = time.time()
     res = {"ok": False, "obligations": len(theorems), "discharged": 0, "detail": "", "axioms": {}}
+    if TRANSLATOR_ERROR is not None:
+        res["detail"] = "translator could not regenerate Gen/*.lean from the current sources: " + TRANSLATOR_ERROR[:1500]
+        return res
     if not theorems:
         res["ok"] = True
         return res
